@@ -514,6 +514,44 @@ pub fn gen_events(rng: &mut Rng, n: usize, width: usize, disorder: bool, stats: 
 
 impl C10 {
     fn random_case(&self, rng: &mut Rng, tier: Tier, stats: &mut Stats) -> String {
+        if rng.chance(1, 120) {
+            // a window holding well over a hundred items (mostly unrelated to the query) and a three-premise rule: what a firing
+            // derives must not depend on how much else is in the window
+            stats.hit("large_window_three_premise_rule");
+            let multi = rng.chance(1, 2);
+            let width = 400;
+            let nfill = rng.range(100, 180);
+            let (pa, pb, ph) = (10u32, 11u32, 12u32);
+            let body = vec![(Tm::V(0), Tm::C(pa), Tm::V(1)), (Tm::V(1), Tm::C(pa), Tm::V(2)), (Tm::V(2), Tm::C(pb), Tm::V(3))];
+            let head = vec![(Tm::V(0), Tm::C(ph), Tm::V(3))];
+            let query = vec![(Tm::V(0), Tm::C(ph), Tm::V(1))];
+            let mut toks: Vec<String> = vec![
+                "rsp".into(),
+                if multi { "M".into() } else { "S".into() },
+                (*rng.pick(&["R", "I"])).into(),
+                width.to_string(),
+                width.to_string(),
+                show_pats(&query),
+                format!("{}=>{}", show_pats(&body), show_pats(&head)),
+            ];
+            let mut evs: Vec<(usize, u32, u32, u32)> = vec![(1, 1, pa, 2), (2, 2, pa, 3), (3, 3, pb, 4)];
+            for i in 0..nfill {
+                evs.push((4 + i, 100 + i as u32, 13, 300 + (i % 7) as u32));
+            }
+            rng.shuffle(&mut evs);
+            evs.sort_by_key(|e| e.0);
+            // the three chain items at random positions of the (in-order) stream
+            let k = evs.len();
+            for (j, e) in evs.iter_mut().enumerate() {
+                e.0 = 1 + j * 390 / k;
+            }
+            for (ts, s, p, o) in evs {
+                toks.push(format!("{}:{},{},{}", ts, s, p, o));
+            }
+            toks.push(format!("{}:{},{},{}", width + 1, 1, 13, 1));
+            toks.push("STOP".into());
+            return toks.join(" ");
+        }
         let multi = rng.chance(1, 2);
         let op = *rng.pick(&["R", "I", "D"]);
         let width = rng.range(1, 6);
